@@ -97,6 +97,11 @@ twin! { ws, reg;
     pub enum E13 { A(u64), B(u8) }
     pub enum E14 { A(u32), B, C(u32) }
     pub enum E15 { A(u32, u32), B(u64), C(u8, u8, u8) }
+    // --- enums with explicit discriminants that differ from the variant positions (the codec's variant index is the
+    //     position, never the discriminant): field-less, and with payloads under a primitive representation
+    pub enum E16 { A = 16, B, C = 3 }
+    #[repr(u32)] pub enum E17 { A(u32) = 7, B = 2, C(u8, Vec<u8>) }
+    #[repr(u8)] pub enum E18 { A = 1, B(u64) = 0 }
 }
 
 /// the two twins really come from different macro versions: only the registry 0.7.1 macro generates this variant
@@ -220,6 +225,9 @@ macro_rules! corpus_valconv {
             vc_enum!([] E13, E13::{ 0 => A(x0: u64), 1 => B(x0: u8) });
             vc_enum!([] E14, E14::{ 0 => A(x0: u32), 1 => B(), 2 => C(x0: u32) });
             vc_enum!([] E15, E15::{ 0 => A(x0: u32, x1: u32), 1 => B(x0: u64), 2 => C(x0: u8, x1: u8, x2: u8) });
+            vc_enum!([] E16, E16::{ 0 => A(), 1 => B(), 2 => C() });
+            vc_enum!([] E17, E17::{ 0 => A(x0: u32), 1 => B(), 2 => C(x0: u8, x1: Vec<u8>) });
+            vc_enum!([] E18, E18::{ 0 => A(), 1 => B(x0: u64) });
             /// constructor of the unit struct in tuple-struct clothing for `vc_tuple!`
             #[allow(non_snake_case)]
             fn U0_() -> U0 { U0 }
@@ -257,6 +265,8 @@ macro_rules! instances {
             ("E8.u32", entry::<E8<u32>>()), ("E8.Vec.u32", entry::<E8<Vec<u32>>>()), ("E8.E3", entry::<E8<E3>>()),
             ("E9", entry::<E9>()), ("E10", entry::<E10>()), ("E11", entry::<E11>()), ("E12", entry::<E12>()),
             ("E13", entry::<E13>()), ("E14", entry::<E14>()), ("E15", entry::<E15>()),
+            ("E16", entry::<E16>()), ("E17", entry::<E17>()), ("E18", entry::<E18>()),
+            ("Vec.E16", entry::<Vec<E16>>()), ("Tup.E17.E16", entry::<(E17, E16)>()), ("Option.E18", entry::<Option<E18>>()),
             ("Vec.E13", entry::<Vec<E13>>()), ("Tup.E14.u8", entry::<(E14, u8)>()), ("Arr.E15.2", entry::<[E15; 2]>()),
             // nesting of derived types inside the hand-written constructors
             ("Vec.N3", entry::<Vec<N3>>()), ("Vec.N2", entry::<Vec<N2>>()), ("Option.E7", entry::<Option<E7>>()),
